@@ -8,3 +8,5 @@ func verifPass(*Scheduler, *ExecutionGraph) {}
 func verifStatus(*Stage, int32) {}
 
 func verifSchedule(*Scheduler, *ExecutionGraph, bool, error) {}
+
+func verifRun(*Stage, bool, error) {}
